@@ -18,14 +18,19 @@ _CLASS_TOKEN = re.compile(r'^[A-Za-z0-9]+Type$')
 KIND_CLASS = {"int": "Int32Type", "text": "UTF8Type", "list": "ListType", "set": "SetType", "map": "MapType",
               "tuple": "TupleType", "udt": "UserType", "frozen": "FrozenType", "reversed": "ReversedType",
               "vector": "VectorType"}
-UDT_FIELDS = {"u": ("f1",), "kj": ("f1", "F2"), "Kj": ("f1",), "Big Type": ("f1",), "other-udt": ("f1",), 'a"b': ("f1",), "it's": ("f1",)}
+UDT_FIELDS = {"u": ("f1",), "kj": ("f1", "F2"), "Kj": ("f1",), "Big Type": ("f1",), "other-udt": ("f1",), 'a"b': ("f1",), "it's": ("f1",),
+              "shop": ("f1",), "shopitem": ("f1",), "ks": ("f1",), "Int32Type": ("f1",), "inbuilt": ("f1",)}
 # names that need quoting in CQL -> quoted form (diagnostics only: attributes a name mismatch to the known printing defect)
-QUOTED = {"Kj": '"Kj"', "Big Type": '"Big Type"', "other-udt": '"other-udt"', 'a"b': '"a""b"', "it's": '"it\'s"'}
+QUOTED = {"Kj": '"Kj"', "Big Type": '"Big Type"', "other-udt": '"other-udt"', 'a"b': '"a""b"', "it's": '"it\'s"', "Int32Type": '"Int32Type"'}
 SIG_APOSTROPHE = "cqltype_to_python:apostrophe-in-quoted-name:raises"
 
 SIG_HEXINT = "parse_casstype_args:all-digit-hex-udt-name-read-as-int"
 SIG_VECTOR = "VectorType.cql_parameterized_type:marshal-class-name-instead-of-vector"
 SIG_UDTQUOTE = "UserType.cql_parameterized_type:udt-name-not-quoted"
+SIG_SHADOW = "lookup_casstype:udt-class-registered-under-its-name-shadows-plain-name-token"
+# keyspace of a user type (default ks) and the names used only in parse histories (TypeNames.tla: UdtKs, HTrees)
+UDT_KS = {"shop": "shop", "shopitem": "shop", "inbuilt": "Int32Type"}
+HIST_NAMES = frozenset(("shop", "shopitem", "ks", "Int32Type", "inbuilt"))
 
 
 def cass_string(tokens, full=True):
@@ -78,9 +83,10 @@ def codec_mismatch(cls, t, ct, path="type"):
             return "%s: vector dimension %r instead of %r" % (path, getattr(cls, "vector_size", None), t["d"])
         return codec_mismatch(cls.subtype, t["a"][0], ct, path + ".subtype")
     if k == "udt":
-        if cls.typename != t["nm"] or tuple(cls.fieldnames) != UDT_FIELDS[t["nm"]] or getattr(cls, "keyspace", None) != "ks":
-            return "%s: UDT %r.%r fields %r instead of ks.%s %r" % (path, getattr(cls, "keyspace", None), cls.typename,
-                                                                  tuple(cls.fieldnames), t["nm"], UDT_FIELDS[t["nm"]])
+        ks = UDT_KS.get(t["nm"], "ks")
+        if cls.typename != t["nm"] or tuple(cls.fieldnames) != UDT_FIELDS[t["nm"]] or getattr(cls, "keyspace", None) != ks:
+            return "%s: UDT %r.%r fields %r instead of %s.%s %r" % (path, getattr(cls, "keyspace", None), cls.typename,
+                                                                  tuple(cls.fieldnames), ks, t["nm"], UDT_FIELDS[t["nm"]])
     subs = tuple(cls.subtypes)
     if len(subs) != len(t["a"]):
         return "%s: %d subtypes instead of %d" % (path, len(subs), len(t["a"]))
@@ -265,3 +271,57 @@ def eval_cql(cql_tokens, stripped_tokens, py_form=None):
     except Exception as ex:
         out.append((SIG_APOSTROPHE if "'" in s else "strip_frozen:raises", "strip_frozen(%r) raised %s: %s" % (s, type(ex).__name__, ex)))
     return out
+
+
+# ------------------------------------------------------------------ parse histories (the type registries are process-global)
+
+def uses_history_names(t):
+    return any(n["k"] == "udt" and n["nm"] in HIST_NAMES for n in tree_kinds(t))
+
+
+def registry_snapshot():
+    ct = repo_import("cassandra.cqltypes")
+    return dict(ct._casstypes), dict(ct._cqltypes), dict(ct.UserType._cache)
+
+
+def registry_restore(snap):
+    ct = repo_import("cassandra.cqltypes")
+    for live, saved in zip((ct._casstypes, ct._cqltypes, ct.UserType._cache), snap):
+        live.clear()
+        live.update(saved)
+
+
+def shadowed_tokens(cass_tokens):
+    """Plain-name tokens of a descriptor that the registry currently resolves to a class made for a user type."""
+    ct = repo_import("cassandra.cqltypes")
+    out = []
+    for tk in cass_tokens:
+        c = ct._casstypes.get(tk) if re.match(r'^\w+$', tk) else None
+        if isinstance(c, type) and issubclass(c, ct.UserType) and c is not ct.UserType:
+            out.append(tk)
+    return sorted(set(out))
+
+
+def eval_history(prev_descriptors, t, cass_tokens, cql_tokens):
+    """Parse the descriptors of `prev_descriptors` (token sequences), then evaluate t's descriptor as eval_cass does;
+    the registries are those of a process that parsed nothing else, and are restored afterwards.
+    A divergence in the presence of a shadowed plain-name token gets SIG_SHADOW."""
+    ct = repo_import("cassandra.cqltypes")
+    snap = registry_snapshot()
+    try:
+        for pd in prev_descriptors:
+            try:
+                ct.lookup_casstype(cass_string(pd))
+            except Exception:
+                pass                                   # its own evaluation (with an empty history) reports that
+        before = shadowed_tokens(cass_tokens)
+        fails = eval_cass(t, cass_tokens, cql_tokens, True)
+        shadow = sorted(set(before + shadowed_tokens(cass_tokens)))
+    finally:
+        registry_restore(snap)
+    if not shadow:
+        return fails
+    hist = ("after parsing %s: " % ", ".join(cass_string(pd, False) for pd in prev_descriptors)) if prev_descriptors else ""
+    return [(sig, msg) if sig in (SIG_UDTQUOTE, SIG_VECTOR) else
+            (SIG_SHADOW, "%s%s  [token(s) %s resolve to the class of a user type of that name]" % (hist, msg, ", ".join(shadow)))
+            for sig, msg in fails]
